@@ -178,7 +178,7 @@ let eval_wire () : string =
 let eval (op : string) (a : string list) : string =
   match op, a with
   | "gen", ops -> eval_gen ops
-  | ("e2e" | "e2e-f5"), w :: labels -> eval_e2e w labels
+  | ("e2e" | "e2e-f5" | "e2e-joinerr"), w :: labels -> eval_e2e w labels
   | "wire", _ -> eval_wire ()
   | "soak", toks -> eval_soak toks
   | _ -> "BADCASE"
